@@ -91,9 +91,10 @@ impl<'a> Dev<'a> {
                 (4, 0x0805) => { data[0] = 0; }
                 (4, 0x080d) => { self.reads += 1; data[0] = if self.out.is_empty() { 0 } else { 0x08 }; }
                 (4, a) if a == RD => {
-                    let rep = self.out.pop_front().unwrap_or_default();
+                    // the sync manager hands the buffer back only when its LAST byte has been read
+                    let rep = if len >= self.len as usize { self.out.pop_front().unwrap_or_default() } else { self.out.front().cloned().unwrap_or_default() };
                     let mut d = rep.clone(); d.resize(len, self.pad); d.truncate(len);
-                    self.delivered.push(rep);
+                    if len >= self.len as usize { self.delivered.push(rep); }
                     data = d;
                 }
                 (5, a) if a == WR => {
@@ -130,7 +131,8 @@ fn run_case(rng: &mut Rng, mode: &str, release: bool) -> String {
     let md: &'static MainDevice<'static> = Box::leak(Box::new(MainDevice::new(pl, timeouts, MainDeviceConfig::default())));
     md.verif_set_network(1, 0);
     let mlen: u16 = match rng.below(5) { 0 => 16 + rng.below(8) as u16, 1 => 1024, _ => rng.range(24, 300) as u16 };
-    let sd0 = verif::subdevice_with_mailbox(0x1000, (WR, mlen), (RD, mlen), rng.chance(1, 2));
+    let wmlen: u16 = match rng.below(4) { 0 => rng.range(16, mlen as u64) as u16, 1 => mlen + rng.range(1, 64) as u16, _ => mlen };
+    let sd0 = verif::subdevice_with_mailbox(0x1000, (WR, wmlen), (RD, mlen), rng.chance(1, 2));
     let group: SubDeviceGroup<1, 8, ethercrab::DefaultLock, Op, NoDc> = SubDeviceGroup::verif_new([sd0].into_iter(), 0, 0, 0);
     let idx = rng.edgy(16) as u16;
     let sub = rng.edgy(8) as u8;
@@ -268,8 +270,8 @@ fn run_case(rng: &mut Rng, mode: &str, release: bool) -> String {
         Ok(_) => "\"res\":\"HANG\"".to_string(),
     };
     let dev_reads = dev.reads;
-    format!("{{\"kind\":\"coe\",\"status_polls\":{dev_reads},\"mode\":\"{}\",\"release\":{},\"mlen\":{},\"op\":{},\"skind\":{},\"idx\":{},\"sub\":{},\"obj\":\"{}\",\"tn\":{},\"upload_mode\":{},\"wlen\":{},\"wr_vals\":{:?},\"abort\":{},\"requests\":[{}],\"replies\":[{}],\"stale\":[{}],\"per_req\":[{}],\"pad\":{},{},\"out\":{:?},\"frames\":{}}}",
-        mode, release, mlen, op, kind, idx, sub, hex(&obj), tn, upload_mode, wlen, wr_vals, abort_code,
+    format!("{{\"kind\":\"coe\",\"status_polls\":{dev_reads},\"mode\":\"{}\",\"release\":{},\"mlen\":{},\"wmlen\":{},\"op\":{},\"skind\":{},\"idx\":{},\"sub\":{},\"obj\":\"{}\",\"tn\":{},\"upload_mode\":{},\"wlen\":{},\"wr_vals\":{:?},\"abort\":{},\"requests\":[{}],\"replies\":[{}],\"stale\":[{}],\"per_req\":[{}],\"pad\":{},{},\"out\":{:?},\"frames\":{}}}",
+        mode, release, mlen, wmlen, op, kind, idx, sub, hex(&obj), tn, upload_mode, wlen, wr_vals, abort_code,
         dev.requests.iter().map(|r| format!("\"{}\"", hex(r))).collect::<Vec<_>>().join(","),
         dev.delivered.iter().map(|r| format!("\"{}\"", hex(r))).collect::<Vec<_>>().join(","),
         stale.iter().map(|r| format!("\"{}\"", hex(r))).collect::<Vec<_>>().join(","),
